@@ -518,6 +518,12 @@ func enumerate(e *common.Enum) {
 						c.Outcome("hostile:not-a-bad-byte")
 						return
 					}
+					if pre := lexgen.Tokenize(text[:r.Err.Off]); pre.Err != nil {
+						// the library already rejects what precedes the byte (e.g. the documented \uXXXX escape,
+						// a C04 finding): its error is legitimately about that, not about the hostile byte
+						c.Outcome("hostile:library-rejects-the-prefix")
+						return
+					}
 					in := lexgen.FromText(text)
 					report(c, func(tok func(string) lexgen.Run) ([]fail, string) {
 						fs, out := errLocAt(in, tok(text), []int{r.Err.Off}, "errloc:bad-byte", "byte "+byteClass(b)+" that starts no lexical element", string(gerrors.ErrCodeUnexpectedChar))
